@@ -2,7 +2,7 @@
    division" (C02/Dsr.v); Qc_sum_dsr gives calibrate(), Qc_max_dsr gives max_calibrate(). *)
 From Coq Require Import List Arith Bool PeanoNat.
 From PV Require Import Base.Semiring Base.Ravel Base.FinSum Base.RefFactor Base.VE
-  C02.Dsr C02.Model C02.Spec C02.Cert C02.ProofsInv C02.ProofsPeel C02.ProofsChk C02.ProofsConv C02.ProofsQuery C02.ProofsSched C02.ProofsShapes C02.ProofsFin.
+  C02.Dsr C02.Model C02.Spec C02.Cert C02.ProofsInv C02.ProofsPeel C02.ProofsChk C02.ProofsConv C02.ProofsQuery C02.ProofsSched C02.ProofsShapes C02.ProofsBfs C02.ProofsTree C02.ProofsFin.
 Import ListNotations.
 
 (* One belief-update message i -> j, in any state reached by messages, preserves
@@ -87,17 +87,15 @@ Print Assumptions C02_subtree_expression.
    remaining clique / edge once, evidence variables live only in the subtree, evidence states in range),
    the factor computed by _query as coded -- subtree, root belief x child belief / sepset belief,
    evidence reduction, variable elimination (Base/VE.ve_run_correct) -- is, pointwise, the joint with the
-   evidence substituted and all variables of [query_elim ++ pvars] summed out: the posterior numerator
-   over Q (pgmpy then normalises).  Unbounded; no _partial.  (That the listed variables are exactly
-   all non-query non-evidence variables is not proved separately; the run compares the model's table
-   with the brute-force sum over exactly those variables, exactly.) *)
+   evidence substituted and summed over a duplicate-free enumeration vs of EXACTLY the variables of the tree
+   that are neither query nor evidence variables (Spec.enumerates_complement): the posterior numerator over
+   Q (pgmpy then normalises).  Unbounded; no _partial. *)
 Theorem C02_query_eq_posterior : forall (D : dsr) (card : var -> nat) (t : ctree D) (st : bstate D) Q ev r,
   tree_ok D card t -> Inv D card t st -> is_converged D card t st = true ->
   bp_query D card t st Q ev = Some r -> query_cert D card t Q ev r = true ->
-  exists order,
-    forall a, valid card a ->
-      feval D card (q_factor D r) a =
-      posterior_num D card t ev (query_elim D t (q_sub D r) Q ev ++ pvars D card t st order) a.
+  exists vs,
+    enumerates_complement vs (all_vars D t) (Q ++ map fst ev) /\
+    forall a, valid card a -> feval D card (q_factor D r) a = posterior_num D card t ev vs a.
 Proof. exact query_eq_posterior. Qed.
 Print Assumptions C02_query_eq_posterior.
 
@@ -129,36 +127,57 @@ Theorem C02_schedule_calibrates_upto3cliques_4binvars :
 Proof. exact schedule_calibrates_upto3. Qed.
 Print Assumptions C02_schedule_calibrates_upto3cliques_4binvars.
 
-(* THE SCHEDULE THEOREM.  For every clique tree, all cardinalities and all non-negative potentials (zeros
-   included), sum or max: if the symbolic certificate Cert.sched_chk -- a boolean function of the tree's
-   SHAPE only (edge list, adjacency order, clique numbering = root order), which replays the coded schedule
-   (all roots, pull, BFS push) tracking from which side each edge is known to be consistent -- answers true,
-   then the schedule as coded (with its early exit) ends with a sepset belief on every edge equal to both
-   end cliques' sepset marginals.  Proof: a message u->v makes its edge consistent from u's side, keeps
-   consistency from v's side of that edge (0/0 guard), and touches no other consistency except v's.
-   PARTIAL only in this respect: that sched_chk holds for EVERY tree (each edge is oriented both ways by
-   the rounds rooted at its two ends, and BFS sends parent-to-child after the parent has received) is a
-   purely combinatorial fact about networkx's BFS on trees that is not proved in general; it is proved for
-   all shapes below by computation and evaluated on pgmpy's own tree on every run. *)
-Theorem C02_schedule_calibrates_partial : forall (D : dsr) (card : var -> nat) (t : ctree D),
-  tree_ok D card t -> sched_chk D t = true ->
+(* THE SCHEDULE THEOREM.  For EVERY clique tree (ProofsTree.is_tree: the edge list has n-1 pairwise distinct
+   undirected edges without loops on the n cliques, is connected, and the adjacency lists -- in any order --
+   list exactly the neighbours), any number of cliques, any clique numbering (= root order), all
+   cardinalities and all non-negative potentials (zeros included), sum or max: the schedule as coded (every
+   clique as root in node order, pull from each neighbour, push along networkx's BFS edges, early exit when
+   _is_converged) ends with a sepset belief on every edge equal to both end cliques' sepset marginals.
+   No per-tree certificate.  Proof: (1) a message u->v makes its edge consistent from u's side, keeps
+   consistency from v's side of that edge (0/0 guard) and touches no other consistency except v's
+   (ProofsSched); (2) on a tree, BFS from r traverses every edge exactly once, parent to child, after the
+   parent's own unique incoming message (ProofsBfs: discovery chain, completeness with fuel n+1, pigeonhole
+   on n-1 edges); (3) so what is known is never lost at the end of a round, the round rooted at x makes every
+   edge at x consistent from x's side and, through the pull phase, from the neighbour's side (ProofsTree);
+   after the rounds rooted at both ends every edge is consistent from both sides; the early exit is covered
+   by C02_calibrated_agree. *)
+Theorem C02_schedule_calibrates : forall (D : dsr) (card : var -> nat) (t : ctree D),
+  tree_ok D card t -> ProofsTree.is_tree D t ->
   all_edges_set D t (calibrate D card t) /\ sepset_agree D card t (calibrate D card t).
-Proof. exact sched_chk_calibrates. Qed.
-Print Assumptions C02_schedule_calibrates_partial.
+Proof. exact schedule_calibrates. Qed.
+Print Assumptions C02_schedule_calibrates.
 
-(* ... and hence every clique belief after calibrate()/max_calibrate() is the exact marginal of the product
-   of the initial potentials, for every leaf-elimination order ending in that clique *)
-Theorem C02_calibrate_is_marginal_partial : forall (D : dsr) (card : var -> nat) (t : ctree D),
-  tree_ok D card t -> sched_chk D t = true ->
+(* ... hence on a junction tree (tree + running intersection: a leaf-elimination order ending in r) the
+   belief of every clique r after calibrate()/max_calibrate() is the exact sum/max-marginal of the product
+   of all potentials.  Unbounded. *)
+Theorem C02_calibrate_is_marginal : forall (D : dsr) (card : var -> nat) (t : ctree D),
+  tree_ok D card t -> ProofsTree.is_tree D t ->
   forall order r, peels D t (all_cl D t) (all_ed D t) order [r] [] ->
   forall a, valid card a ->
     feval D card (belief D card (calibrate D card t) r) a =
     sum_over (pvars D card t (calibrate D card t) order) (map card (pvars D card t (calibrate D card t) order))
              (joint D card t) a.
-Proof. exact sched_chk_marginal. Qed.
-Print Assumptions C02_calibrate_is_marginal_partial.
+Proof. exact calibrate_is_marginal. Qed.
+Print Assumptions C02_calibrate_is_marginal.
 
-(* Finite domain (shapes only, so valid for all cardinalities and potentials): sched_chk holds for every
+(* the symbolic replay of the schedule succeeds on every tree; the boolean tree check (applied to pgmpy's own
+   tree on every run) is sound for is_tree *)
+Theorem C02_sched_chk_every_tree : forall (D : dsr) (t : ctree D), is_tree D t -> sched_chk D t = true.
+Proof. exact sched_chk_tree. Qed.
+Print Assumptions C02_sched_chk_every_tree.
+Theorem C02_tree_chk_sound : forall (D : dsr) (t : ctree D),
+  tree_shape_chk (length (cliques D t)) (tedges D t) (adj D t) = true -> is_tree D t.
+Proof. exact tree_chk_sound. Qed.
+Print Assumptions C02_tree_chk_sound.
+
+(* the certificate-based form (any shape on which the replay succeeds, tree or not) *)
+Theorem C02_schedule_calibrates_given_sched_chk : forall (D : dsr) (card : var -> nat) (t : ctree D),
+  tree_ok D card t -> sched_chk D t = true ->
+  all_edges_set D t (calibrate D card t) /\ sepset_agree D card t (calibrate D card t).
+Proof. exact sched_chk_calibrates. Qed.
+Print Assumptions C02_schedule_calibrates_given_sched_chk.
+
+(* Finite domain (now subsumed by C02_sched_chk_every_tree; kept as an independent computation): sched_chk holds for every
    labelled tree on <= 5 cliques with the adjacency lists arising from every ordering of the edge list
    (1 + 1 + 3*2 + 16*6 + 125*24 shapes) and every labelled tree on 6 cliques in parent edge order (1296). *)
 Theorem C02_sched_chk_upto5cliques_allorders_6cliques :
